@@ -1,6 +1,149 @@
-//! C13: implementation-side case runners (see props/c13.py). Stub until the property is built.
+//! C13: layer compositing — the real `Buffer::get_char` on stacks described by the case (see props/c13.py).
+//!
+//! `comp <ints…>`:
+//!   term
+//!   nfonts { page w h nglyphs { ch len byte* }* }*
+//!   nlayers { visible alpha mode offx offy haspreview px py w h dfp build
+//!             build=0 (raw `lines`): nrows { ncells { ch fg bg attr fpage }* }*
+//!             build=1 (Layer::new + set_char): nset { x y ch fg bg attr fpage }* }*        (bottom layer first)
+//!   x0 y0 x1 y1
+//! -> for y in y0..=y1, x in x0..=x1: ch fg bg attr fpage of `buf.get_char((x,y))`
+//! `font0` -> w h { len byte* } for the 256 codes of the font `Buffer::new` installs at page 0
 use crate::Obs;
+use icy_engine::{AttributedChar, BitFont, Buffer, Glyph, Layer, Line, Mode, Size, TextAttribute, TextPane};
 
-pub fn run(_kind: &str, _args: &[&str]) -> Option<Obs> {
-    None
+struct Rd<'a> {
+    a: &'a [&'a str],
+    i: usize,
+}
+impl<'a> Rd<'a> {
+    fn next(&mut self) -> i64 {
+        let v: i64 = self.a[self.i].parse().unwrap();
+        self.i += 1;
+        v
+    }
+    fn cell(&mut self) -> AttributedChar {
+        let ch = self.next() as u32;
+        let fg = self.next() as u32;
+        let bg = self.next() as u32;
+        let attr = self.next() as u16;
+        let fpage = self.next() as usize;
+        let mut a = TextAttribute::new(fg, bg);
+        a.attr = attr;
+        a.set_font_page(fpage);
+        AttributedChar::new(char::from_u32(ch).unwrap(), a)
+    }
+}
+
+fn build(r: &mut Rd) -> Buffer {
+    let term = r.next() != 0;
+    let mut buf = Buffer::new((80, 25));
+    buf.is_terminal_buffer = term;
+    buf.layers.clear();
+    let nfonts = r.next();
+    for _ in 0..nfonts {
+        let page = r.next() as usize;
+        let w = r.next() as i32;
+        let h = r.next() as i32;
+        let ng = r.next();
+        let mut f = BitFont::create_8("verif", 8, 1, &[]);
+        f.size = Size::new(w, h);
+        f.glyphs.clear();
+        for _ in 0..ng {
+            let ch = char::from_u32(r.next() as u32).unwrap();
+            let len = r.next();
+            let data: Vec<u8> = (0..len).map(|_| r.next() as u8).collect();
+            f.glyphs.insert(ch, Glyph { data });
+        }
+        buf.set_font(page, f);
+    }
+    let nl = r.next();
+    for _ in 0..nl {
+        let visible = r.next() != 0;
+        let alpha = r.next() != 0;
+        let mode = match r.next() {
+            0 => Mode::Normal,
+            1 => Mode::Chars,
+            _ => Mode::Attributes,
+        };
+        let offx = r.next() as i32;
+        let offy = r.next() as i32;
+        let has_preview = r.next() != 0;
+        let px = r.next() as i32;
+        let py = r.next() as i32;
+        let w = r.next() as i32;
+        let h = r.next() as i32;
+        let dfp = r.next() as usize;
+        let build = r.next();
+        let mut l;
+        if build == 0 {
+            l = Layer::new("l", (0, 0));
+            l.set_size((w, h));
+            l.lines.clear();
+            let nrows = r.next();
+            for _ in 0..nrows {
+                let nc = r.next();
+                let chars: Vec<AttributedChar> = (0..nc).map(|_| r.cell()).collect();
+                l.lines.push(Line { chars });
+            }
+        } else {
+            // the way the repository's own tests build stacks
+            l = Layer::new("l", (w, h));
+            let nset = r.next();
+            for _ in 0..nset {
+                let x = r.next() as i32;
+                let y = r.next() as i32;
+                let c = r.cell();
+                l.set_char((x, y), c);
+            }
+        }
+        l.properties.has_alpha_channel = alpha;
+        l.properties.mode = mode;
+        l.set_offset((offx, offy));
+        if has_preview {
+            l.set_preview_offset(Some((px, py).into()));
+        }
+        l.default_font_page = dfp;
+        l.properties.is_visible = visible;
+        buf.layers.push(l);
+    }
+    buf
+}
+
+pub fn run(kind: &str, args: &[&str]) -> Option<Obs> {
+    Some(match kind {
+        "comp" => {
+            let mut r = Rd { a: args, i: 0 };
+            let buf = build(&mut r);
+            let (x0, y0, x1, y1) = (r.next() as i32, r.next() as i32, r.next() as i32, r.next() as i32);
+            let mut out = Vec::new();
+            for y in y0..=y1 {
+                for x in x0..=x1 {
+                    let c = buf.get_char((x, y));
+                    out.push(c.ch as u32 as i64);
+                    out.push(c.attribute.get_foreground() as i64);
+                    out.push(c.attribute.get_background() as i64);
+                    out.push(c.attribute.attr as i64);
+                    out.push(c.attribute.get_font_page() as i64);
+                }
+            }
+            Ok(out)
+        }
+        "font0" => {
+            let buf = Buffer::new((80, 25));
+            let f = buf.get_font(0).unwrap();
+            let mut out = vec![f.size.width as i64, f.size.height as i64, f.glyphs.len() as i64];
+            for c in 0..256u32 {
+                match f.get_glyph(char::from_u32(c).unwrap()) {
+                    Some(g) => {
+                        out.push(g.data.len() as i64);
+                        out.extend(g.data.iter().map(|b| *b as i64));
+                    }
+                    None => out.push(-1),
+                }
+            }
+            Ok(out)
+        }
+        _ => return None,
+    })
 }
